@@ -294,6 +294,8 @@ def _gen_case(rng, cls=None, nops=None):
             ops.append(["altairenc"])
         elif r < 0.78:
             ops.append(["collect"])
+        elif r < 0.80 and layer is not None:
+            ops.append(["inflayer", rng.random() < 0.6, rng.random() < 0.5, rng.random() < 0.4])
         elif r < 0.88 and layer is not None:
             prev = [o for o in ops if o[0] == "layer"]
             if prev and rng.random() < 0.5:
@@ -790,6 +792,7 @@ def run_impl(case):
                 layer.data[x, y] = ldata[x][y]
 
     draw_count = [0]
+    inf_layer = {}
     if (case.get("variant") or {}).get("entry") is not None:
         import matplotlib.pyplot as plt
 
@@ -1222,6 +1225,67 @@ def run_impl(case):
                 m = min(sp["w"], sp["h"])
                 if not hs and (sn, sd) != _size_frac(30000 / m ** 2):
                     fail("C20/altair/encoding/default-mark-size", i, f"default mark size {sn}/{sd} on a {sp['w']}x{sp['h']} space")
+            elif kind == "inflayer":
+                # a second, float layer that is constantly +inf / -inf, drawn with the default or the explicit scale
+                _, cm, neg, explicit = op
+                if layer is None:
+                    obs.append([-2])
+                    continue
+                val = -math.inf if neg else math.inf
+                if "I" not in inf_layer:
+                    if legacy:
+                        from mesa.space import PropertyLayer as PL
+
+                        inf_layer["I"] = PL("I", sp["w"], sp["h"], 0.0, dtype=float)
+                    else:
+                        from mesa.discrete_space import PropertyLayer as PL
+
+                        inf_layer["I"] = PL("I", (sp["w"], sp["h"]), default_value=0.0, dtype=float)
+                    space.add_property_layer(inf_layer["I"])
+                inf_layer["I"].data[:] = val
+                lp = {"colorbar": False}
+                lp["color" if cm else "colormap"] = "red" if cm else "viridis"
+                if explicit:
+                    lp["vmin"] = lp["vmax"] = val
+                ax = draw({"I": lp})
+                INF = 1000000007
+
+                def code(a):
+                    a = float(a)
+                    return -7 if a != a else (0 if a == 0 else (INF if a == math.inf else (-INF if a == -math.inf else -6)))
+
+                codes = []
+                w, h = sp["w"], sp["h"]
+                if fam == "Hex":
+                    polys = [c for c in ax.collections if type(c) is lib["PolyCollection"]]
+                    fcs = np.asarray(polys[-1].get_facecolors()) if polys else []
+                    if len(fcs) != w * h:
+                        raise _Bad(f"{len(fcs)} hexagon colours for {w * h} cells")
+                    import matplotlib.pyplot as plt
+
+                    base = plt.get_cmap("viridis")(0.0)
+                    for fc in fcs:
+                        if cm:
+                            codes.append(code(fc[3]))
+                        else:
+                            codes.append(-7 if any(float(x) != float(x) for x in fc) else (0 if all(abs(float(a) - float(b)) < 1e-6 for a, b in zip(fc[:3], base[:3])) else -6))
+                else:
+                    if not ax.images:
+                        raise _Bad("no image drawn")
+                    arr = np.ma.getdata(ax.images[-1].get_array())
+                    if arr.shape[:2] != (h, w):
+                        raise _Bad(f"image shape {arr.shape}")
+                    for r in range(h):
+                        for c2 in range(w):
+                            codes.append(code(arr[r, c2, 3] if cm else arr[r, c2]))
+                obs.append([0, h, w] + codes)
+                want = 0 if (cm or fam == "Hex") else (-INF if neg else INF)
+                if any(c != want for c in codes):
+                    fail("C20/layer/constant-inf-layer-alpha-not-zero" if cm else "C20/layer/constant-inf-layer-data", i,
+                         f"draw_property_layers on {cls} {w}x{h}, {'color' if cm else 'colormap'} mode, a layer that is constantly {val} "
+                         f"({'explicit vmin = vmax = ' + str(val) if explicit else 'default scale'}): per cell "
+                         f"{'alpha channel' if cm else 'value handed to Matplotlib'} codes {codes} (0: zero / cmap(0), -7: NaN, +-{INF}: +-inf, -6: other); "
+                         f"a constant layer must give {want} everywhere (as Normalize does)")
             elif kind == "layer":
                 _, cm, vmin, vmax, a4 = op[:5]
                 cbar = bool(op[5]) if len(op) > 5 else False
@@ -1686,6 +1750,8 @@ def _coq_op(op):
         return f"DrawAltairC {L.b(op[1])}"
     if k == "altairenc":
         return "DrawAltairEnc"
+    if k == "inflayer":
+        return f"DrawInfLayer {L.b(op[1])} {L.b(op[2])}"
     if k == "check":
         sig = [_coq_param("self", "PosOrKw", False)] + [_coq_param(*p) for p in op[1]]
         return f"Check {L.lst(sig)} {L.zlist([NAMES.index(n) for n in op[2]])}"
@@ -1716,7 +1782,7 @@ def op_kinds(case):
     out = []
     for op in case["ops"]:
         k = op[0]
-        if k in ("mpl", "altair", "collect", "layer", "mplc", "altairc", "altairenc"):
+        if k in ("mpl", "altair", "collect", "layer", "mplc", "altairc", "altairenc", "inflayer"):
             k += "/" + case["space"]["cls"]
         out.append(k)
     return out
@@ -1724,7 +1790,7 @@ def op_kinds(case):
 
 def nontrivial(case):
     obs = case.get("_obs", [])
-    draws = [o for op, o in zip(case["ops"], obs) if op[0] in ("mpl", "altair", "collect", "layer", "check", "split", "creator", "bind", "mplc", "altairc", "altairenc") and o and o[0] not in (-2,)]
+    draws = [o for op, o in zip(case["ops"], obs) if op[0] in ("mpl", "altair", "collect", "layer", "check", "split", "creator", "bind", "mplc", "altairc", "altairenc", "inflayer") and o and o[0] not in (-2,)]
     return len(case["ops"]) >= 3 and len(draws) >= 1
 
 
